@@ -75,6 +75,30 @@ def seeded():
     return '\n'.join(rows)
 
 
+def benign():
+    rows = ['| Change | What was rewritten (first line of the sub-agent\'s notes) | Checks run against it | Outcome |', '|---|---|---|---|']
+    for d in sorted(glob.glob(os.path.join(V, 'benign', '*', 'meta.json'))):
+        m = json.load(open(d))
+        name = os.path.basename(os.path.dirname(d))
+        notes = os.path.join(os.path.dirname(d), 'notes.txt')
+        first = ''
+        if os.path.exists(notes):
+            for line in open(notes, encoding='utf-8'):
+                if line.strip():
+                    first = line.strip()
+                    break
+        first = re.sub(r'^(Change|CHANGE|Site)\s*[:\-]\s*', '', first).replace('|', '\\|')
+        if len(first) > 230:
+            first = first[:227] + '…'
+        fa = m.get('false_alarms') or []
+        lost = m.get('extraction_lost') or []
+        outcome = 'all exit 0' if not fa else 'FALSE ALARM: ' + ', '.join(fa)
+        if lost:
+            outcome += '; extraction tie lost (reported in the evidence, not an alarm): ' + ', '.join(lost)
+        rows.append('| %s | %s | %s | %s |' % (name, first, ' '.join(sorted(m.get('checks', {}))), outcome))
+    return '\n'.join(rows)
+
+
 def fixed_and_known():
     k = json.load(open(os.path.join(V, 'known_findings.json')))
     rows = ['| Property | Commit | What failed |', '|---|---|---|']
@@ -92,7 +116,7 @@ def main():
     path = os.path.join(V, 'DESIGN.md')
     s = open(path, encoding='utf-8').read()
     fx, kn = fixed_and_known()
-    for key, body in (('PER_PROPERTY', per_property()), ('SEEDED', seeded()), ('FIXED', fx), ('KNOWN', kn)):
+    for key, body in (('PER_PROPERTY', per_property()), ('SEEDED', seeded()), ('BENIGN', benign()), ('FIXED', fx), ('KNOWN', kn)):
         s, n = re.subn(r'(<!-- BEGIN:%s -->\n).*?(<!-- END:%s -->)' % (key, key), lambda m: m.group(1) + body + '\n' + m.group(2), s, flags=re.S)
         if n != 1:
             raise SystemExit('marker %s not found' % key)
